@@ -230,7 +230,7 @@ vf_exit (int code)
 
 #define N_KINDS 40
 static long hk_count[N_KINDS], hk_maxa[N_KINDS], hk_sumb[N_KINDS], hk_lastc[N_KINDS],
-  hk_lasta[N_KINDS];
+  hk_lasta[N_KINDS], hk_zeroa[N_KINDS], hk_posb[N_KINDS];
 
 #ifndef NO_HOOKS
 extern void (*yaep_verif_event) (int kind, long a, long b, long c);
@@ -248,6 +248,10 @@ hook_event (int kind, long a, long b, long c)
   if (hk_count[kind] == 0 || a > hk_maxa[kind])
     hk_maxa[kind] = a;
   hk_count[kind]++;
+  if (a == 0)
+    hk_zeroa[kind]++;
+  if (b > 0)
+    hk_posb[kind]++;
   hk_sumb[kind] += b;
   hk_lastc[kind] = c;
   hk_lasta[kind] = a;
@@ -261,6 +265,8 @@ hooks_reset (void)
   memset (hk_sumb, 0, sizeof hk_sumb);
   memset (hk_lastc, 0, sizeof hk_lastc);
   memset (hk_lasta, 0, sizeof hk_lasta);
+  memset (hk_zeroa, 0, sizeof hk_zeroa);
+  memset (hk_posb, 0, sizeof hk_posb);
 }
 
 static void
@@ -271,8 +277,8 @@ hooks_print (void)
   for (k = 0; k < N_KINDS; k++)
     if (hk_count[k] != 0)
       {
-	fprintf (out, "%s\"%d\":[%ld,%ld,%ld,%ld,%ld]", first ? "" : ",", k,
-		 hk_count[k], hk_maxa[k], hk_sumb[k], hk_lastc[k], hk_lasta[k]);
+	fprintf (out, "%s\"%d\":[%ld,%ld,%ld,%ld,%ld,%ld,%ld]", first ? "" : ",", k,
+		 hk_count[k], hk_maxa[k], hk_sumb[k], hk_lastc[k], hk_lasta[k], hk_zeroa[k], hk_posb[k]);
 	first = 0;
       }
   fprintf (out, "}");
